@@ -133,7 +133,8 @@ def cmd_run(ids, tier, props):
                 continue
             for prop in plist:
                 t0 = time.monotonic()
-                env = dict(os.environ, VERIF_REPO=wt, VERIF_EVIDENCE_DIR=os.path.join(SCRATCH, "evidence"))
+                env = dict(os.environ, VERIF_REPO=wt, VERIF_EVIDENCE_DIR=os.path.join(SCRATCH, "evidence"),
+                           VERIF_SKIP_MUTANT_REPLAYS="1")
                 rc, out = sh([PY, os.path.join(ROOT, "run.py"), prop, "--tier", tier], cwd=ROOT, env=env, timeout=7200)
                 wall = time.monotonic() - t0
                 vio = [ln for ln in out.splitlines() if ln.startswith("VIOLATION")]
